@@ -65,7 +65,7 @@ def tasks_c01(tier, seed):
 
 def tasks_c03(tier, seed):
     ts = []
-    scens = ["S1", "S2", "S3Reset", "S3ResetAll", "S3TokenEvent", "S3TokenEventWithID", "S3TokenReset", "S4", "S7", "Q6"]
+    scens = ["S1", "S2", "S3Reset", "S3ResetAll", "S3TokenEvent", "S3TokenEventWithID", "S3TokenReset", "S4", "S7", "Q6", "QEshutdown"]
     if tier == "quick":
         for s in scens:
             big = s in ("S1", "S2", "Q6")
@@ -108,7 +108,7 @@ def tasks_c18(tier, seed):
 
 
 QE_SCENS = ["QE0", "QE1-model", "QE1-events", "QE1-error", "QE1-notfound", "QE1-panic", "QE1-nothing", "QE1-timeout", "QE1-twice",
-            "QE2", "QEempty", "QEnopayload", "QEfail", "QEconc", "QEchain"]
+            "QE2", "QEempty", "QEnopayload", "QEfail", "QEconc", "QEchain", "QEshutdown"]
 
 
 def tasks_c15(tier, seed):
@@ -178,7 +178,7 @@ def tasks_c16(tier, seed):
     for s in ["Q1s", "Q2", "Q3"]:
         ts += explore(s, w1, b, race=True, timeout=to)
         ts += explore(s, "w2-in1-tagged-route", b, race=True, shards=6 if s == "Q3" else 2, timeout=to)
-    for s in ["QE1-model", "QE1-panic", "QE2", "QEfail", "QEconc", "QEchain"]:
+    for s in ["QE1-model", "QE1-panic", "QE2", "QEfail", "QEconc", "QEchain", "QEshutdown"]:
         ts += explore(s, w1, b, race=True, timeout=to)
     ts += STORE_RACE_TASKS(tier)
     return ts
